@@ -96,10 +96,8 @@ def hides_homonym(r, key, ent):
     o = occ0[0]
     if o.role == "member":
         # a component / binding reached through obj%...: what matters is the name of the first object of the chain
-        k, toks = o.tok_i, o.stmt.toks
-        while k >= 2 and toks[k - 1] == "%":
-            k -= 2
-        root = toks[k]
+        toks = o.stmt.toks
+        root = toks[fmodel.chain_root_index(toks, o.tok_i)]
         if isinstance(root, fmodel.Ref):
             return any(x is not root.ent for x in fws._reachable_through_hidden(o.scope, root.spelling()))
         return False
